@@ -39,10 +39,21 @@ def even_spread(t, total, n):
     """t = [q + (1 if i < r else 0) for i in range(n)] with q = total // n, r = total % n, in loop or comprehension form.
     -> dict(ok=bool, why=str, coerced=bool)"""
     def elem_from_accum(t):
-        if t[0] != 'accum' or t[1] != ('list', ()):
+        if t[0] != 'accum':
             return None
         base = incs = None
         rng = None
+        pre = t[1]
+        if pre[0] == 'bin' and pre[1] == 'Mult':
+            # [q] * n filled first, the +1 updates afterwards
+            for lst, cnt_ in ((pre[2], pre[3]), (pre[3], pre[2])):
+                if lst[0] == 'list' and len(lst[1]) == 1:
+                    base = (lst[1][0], None)
+                    rng = (None, cnt_)
+            if base is None:
+                return None
+        elif pre != ('list', ()):
+            return None
         out_incs = []
         for op, idx, val, ch in t[2]:
             if len(ch) != 1:
@@ -150,7 +161,69 @@ def even_spread(t, total, n):
 
 
 # ---- consecutive blocks: which lecturer offers which project ---------------------------------------------------------
+def blocks_grid(t, total, n, limit=12):
+    """A closed-form table (a term over total, n and its own binders only) that is not one of the recognised constructions
+    is *evaluated* on the finite grid 1 <= n <= total <= limit and compared with the reference blocks.  A difference is a
+    refutation with the concrete (total, n); agreement on the grid decides nothing (-> None)."""
+    from .termeval import PyEval, NOATOM, Raises
+    def free_atoms(x, bound=()):
+        out = set()
+        def go(y):
+            if y == total or y == n:
+                return
+            if y[0] in ('sym', 'attr', 'top', 'carried', 'prefix', 'stale'):
+                out.add(y)
+                return
+            if y[0] == 'bvar':
+                go(y[3])
+                return
+            for z in y[1:]:
+                if isinstance(z, tuple):
+                    if z and isinstance(z[0], str):
+                        go(z)
+                    else:
+                        for w_ in z:
+                            if isinstance(w_, tuple) and w_ and isinstance(w_[0], str):
+                                go(w_)
+                            elif isinstance(w_, tuple):
+                                for v_ in w_:
+                                    if isinstance(v_, tuple) and v_ and isinstance(v_[0], str):
+                                        go(v_)
+        go(x)
+        return {a for a in out if not (a[0] == 'sym' and a[1] in ('range', 'len', 'int', 'list', 'min', 'max', 'sum', 'divmod', 'sorted', 'enumerate', 'zip'))}
+    if free_atoms(t):
+        return None
+    for tot in range(1, limit + 1):
+        for k in range(1, tot + 1):
+            def atom(x, tot=tot, k=k):
+                if x == total:
+                    return tot
+                if x == n:
+                    return k
+                return NOATOM
+            try:
+                got = PyEval(atom).ev(t)
+            except (Unknown, Raises, Exception):
+                return None
+            if not isinstance(got, (list, tuple)):
+                return None
+            q, r = divmod(tot, k)
+            want = [a + 1 for a in range(k) for _ in range(q + (1 if a < r else 0))]
+            if list(got) != want:
+                return dict(ok=False, why='for %d projects and %d lecturers the table is %s, expected %s (larger shares first, consecutive blocks)' % (tot, k, list(got), want))
+    return None
+
+
 def blocks_of(t, total, n):
+    r = _blocks_of(t, total, n)
+    if r.get('unknown'):
+        g = blocks_grid(t, total, n)
+        if g is not None:
+            return g
+    return r
+
+
+def _blocks_of(t, total, n):
     """t = list of length `total` in which agent k (0-based, ascending) owns a consecutive block of share(k) = floor(total/n)
     + (1 if k < total % n) entries holding k + 1.  Recognised constructions:
        [k+1 for k in range(n) for _ in range(share[k])]            (shares an even-spread list; loops or comprehension)
